@@ -156,4 +156,38 @@ theorem numeric_keys_zh :
     (List.range 31).all (fun i => lookup dayOfMonth_zh (decStr (i + 1)) == some (i + 1)) = true := by
   decide +kernel
 
+
+/-! ## Chinese (`ChineseDateParser.match_to_date`, its own decode step) -/
+
+def zhDateCfg : DateCfg := genCfg monthOfYear_zh dayOfMonth_zh
+
+/-- C06 for the Chinese parser: a date 1900–2099 that exists, in any layout whose `month` / `day` groups are keys of the
+Chinese tables (digits, `3月`, `三月`, `十五`, `5日`, `五号` …; values reduced as `get_month_of_year` / `get_day_of_month`
+do) and whose year is a digit group or a 汉字 year converted by `convert_chinese_year_to_number` (input of the model),
+resolves to exactly `YYYY-MM-DD`, for every reference. -/
+theorem abs_date_zh (u : Uni) (g : DateGroups) (chsYear : Int) (y mo d : Nat)
+    (h : DecodesZh u zhDateCfg g chsYear y mo d) (hy : 1900 ≤ y ∧ y ≤ 2099) (hv : (⟨y, mo, d⟩ : Date).valid = true)
+    (R : DT) :
+    resolveDateZh u zhDateCfg g chsYear R =
+      .ok (some [{ timex := ymd y mo d, type := sDate, value := some (ymd y mo d) }]) :=
+  resolveDateZh_valid u zhDateCfg g chsYear y mo d R h (by omega) (by omega) hv
+
+/-- `2019年3月5日` with digits, and `三月五日` with a 汉字 year that converts to 2019: the hypotheses are satisfiable on the
+regenerated tables. -/
+example : DecodesZh asciiUni zhDateCfg { year := [50, 48, 49, 57], month := [51, 26376], day := [53, 26085] } (-1) 2019 3 5 :=
+  ⟨⟨3, by decide, by decide⟩, ⟨5, by decide, by decide⟩, Or.inl ⟨by decide, by decide, by decide⟩⟩
+
+example : DecodesZh asciiUni zhDateCfg { year := [], month := [19977, 26376], day := [20116, 26085] } 2019 2019 3 5 :=
+  ⟨⟨3, by decide, by decide⟩, ⟨5, by decide, by decide⟩, Or.inr ⟨by decide, rfl⟩⟩
+
+/-- the Chinese tables after the reduction of `get_month_of_year` / `get_day_of_month`: every month key lands in 1..12
+(or 0 for a multiple of 12), every day key in 0..31, and the digit keys `m`, `0m`, `m月`, `d`, `0d`, `d日`, `d号` are the
+identity -/
+theorem zh_tables :
+    monthOfYear_zh.all (fun p => zhReduce 12 p.2 ≤ 12) = true ∧ dayOfMonth_zh.all (fun p => zhReduce 31 p.2 ≤ 31) = true ∧
+    (List.range 12).all (fun i => lookup monthOfYear_zh (decStr (i + 1) ++ [26376]) == some (i + 1)) = true ∧
+    (List.range 31).all (fun i => lookup dayOfMonth_zh (decStr (i + 1) ++ [26085]) == some (i + 1) &&
+                                  lookup dayOfMonth_zh (decStr (i + 1) ++ [21495]) == some (i + 1)) = true := by
+  decide +kernel
+
 end RTV.DtRes
